@@ -302,7 +302,7 @@ func checkC18(c *Ctx, r *Report) {
 		var sites []string
 		fd := w.defsOf(fi)
 		n := 0
-		ast.Inspect(fi.Decl.Body, func(nd ast.Node) bool {
+		w.inspectRegion(fi, func(nd ast.Node) bool {
 			call, ok := nd.(*ast.CallExpr)
 			if !ok {
 				return true
@@ -417,7 +417,7 @@ func checkSeverityFilter(c *Ctx, r *Report) {
 	var sites []string
 	// an append of the entity inside a loop over that entity's own Diagnostics, with no break after it,
 	// appends it once per matching diagnostic
-	ast.Inspect(fi.Decl, func(n ast.Node) bool {
+	w.inspectRegion(fi, func(n ast.Node) bool {
 		rs, ok := n.(*ast.RangeStmt)
 		if !ok {
 			return true
@@ -563,7 +563,7 @@ func checkDiagOperands(c *Ctx, r *Report) {
 			continue
 		}
 		var call *ast.CallExpr
-		ast.Inspect(fi.Decl, func(n ast.Node) bool {
+		w.inspectRegion(fi, func(n ast.Node) bool {
 			if ce, ok := n.(*ast.CallExpr); ok && ce.Lparen == cl.Pos() {
 				call = ce
 			}
@@ -672,7 +672,7 @@ func checkDiagOperands(c *Ctx, r *Report) {
 				continue
 			}
 			var call *ast.CallExpr
-			ast.Inspect(fi.Decl, func(nd ast.Node) bool {
+			w.inspectRegion(fi, func(nd ast.Node) bool {
 				if ce, ok := nd.(*ast.CallExpr); ok && ce.Lparen == cl.Pos() {
 					call = ce
 				}
@@ -733,7 +733,7 @@ func checkDiagOperands(c *Ctx, r *Report) {
 				continue
 			}
 			var call *ast.CallExpr
-			ast.Inspect(fi.Decl, func(nd ast.Node) bool {
+			w.inspectRegion(fi, func(nd ast.Node) bool {
 				if ce, ok := nd.(*ast.CallExpr); ok && ce.Lparen == cl.Pos() {
 					call = ce
 				}
